@@ -196,7 +196,7 @@ def gen(rng, tier):
         for k in range(64):
             yield case('shl', l, str(k))
             yield case('shr', l, str(k))
-    n = 40000 if quick else 1500000
+    n = 40000 if quick else 6000000
     k = 0
     while k < n:
         k += 1
@@ -329,3 +329,36 @@ def shrink_candidates(c):
         for nv in (0, 1, v >> 1, v & (v - 1)):
             if nv != v:
                 yield emit(lists, {i: nv})
+
+
+def extra_checks(tier, rng, findings):
+    """thorough tier: repeat the corpus and a structured sample against a --release build of the harness
+    (debug assertions and overflow checks off: `assume!` becomes unreachable_unchecked, wraps are silent)."""
+    if tier != 'thorough':
+        return {}
+    import itertools
+    import os
+    import vlib
+    binpath, secs = vlib.build_harness(BIN, release=True)
+    drv = os.path.join(vlib.LEAN, '.lake', 'build', 'bin', DRV)
+    cases = []
+    cpath = os.path.join(vlib.ROOT, 'corpus', 'C15.cases')
+    if os.path.exists(cpath):
+        cases += [l.strip() for l in open(cpath) if l.strip() and not l.startswith('#')]
+    # slices whose lengths violate a documented precondition are undefined behaviour in release: keep only
+    # cases whose debug outcome is not a panic by construction (equal lengths for the tied kernels)
+    for c in itertools.islice(gen(rng, 'quick'), 120000):
+        t = c.split(' ')
+        if t[0] in ('adcn', 'sbbn') and len(pl(t[3])) < len(pl(t[2])):
+            continue
+        if t[0] == 'addmuln' and not (len(pl(t[2])) == len(pl(t[3])) == len(pl(t[4]))):
+            continue
+        cases.append(c)
+    impl, _ = vlib.run_impl(binpath, cases)
+    ms = vlib.run_model(drv, cases, impl)
+    viol = []
+    for c, i, (m, s) in zip(cases, impl, ms):
+        k = vlib.classify(c, i, m, s)
+        if k is not None:
+            viol.append((k if k != 'model-error' else 'impl-violation', c + '   [release build]', i, m, s))
+    return {'violations': viol[:50], 'coverage': {'release_rerun': {'cases': len(cases), 'mismatches': len(viol), 'cargo_s': round(secs, 1)}}}
